@@ -14,6 +14,7 @@ import errno
 import hashlib
 import json
 import os
+import re
 import pickle as _pickle
 import shutil as _shutil
 import stat as _stat
@@ -94,6 +95,29 @@ N_VERSIONS = 4    # 0 = content of an 'older' initial entry only; 1 = current at
 
 GARBAGE = [b'', b'\x00', b'this is not a pickle\n', b'\x80\x04\x95\xff\xff\xff\xff\xff\xff\xff\x7f', b'\x80\x04N',
            b'<?xml version="1.0"?>\n<repository/>\n', b'\x80\x05\x95\x10\x00\x00\x00\x00\x00\x00\x00\x8c\x03abc']
+N_DAMAGED = 4
+
+
+def _garbage(i):
+    """Content of a broken entry: one of the foreign byte strings above, or the valid entry damaged in the middle in
+    a way that cannot load (an unknown protocol number; a byte that is not UTF-8 inside a pickled module/class name) -
+    such damage makes pickle raise ValueError / UnicodeDecodeError rather than UnpicklingError or EOFError."""
+    i %= len(GARBAGE) + N_DAMAGED
+    if i < len(GARBAGE):
+        return GARBAGE[i]
+    k = i - len(GARBAGE)
+    b = bytearray(_PICKLES[1])
+    if k == 0:
+        b[1] = 0x7f
+        return bytes(b)
+    hits = [m.start() for m in re.finditer(b'giscanner', bytes(b))]
+    if not hits:
+        raise HarnessError('C18: no module name found in the pickled entry')
+    pos = hits[(k * 7) % len(hits)] + k
+    b[pos] = 0xff
+    return bytes(b)
+
+
 INITS = ['absent', 'valid', 'older', 'touched', 'truncated', 'garbage', 'unreadable']
 OPS = ['load', 'include', 'store']
 SHARED_ROLES = ('entry', 'ver', 'src', 'cache')
@@ -1061,7 +1085,7 @@ def _initial_state(w, case):
         cut = max(0, min(len(b) - 1, len(b) * int(case.get('cut', 500)) // 1000))
         w.init_ino = _put(w, w.entry, b[:cut], 20, 0o600)
     elif init == 'garbage':
-        w.init_ino = _put(w, w.entry, GARBAGE[int(case.get('garbage', 0)) % len(GARBAGE)], 20, 0o600)
+        w.init_ino = _put(w, w.entry, _garbage(int(case.get('garbage', 0))), 20, 0o600)
     elif init == 'unreadable':
         w.init_ino = _put(w, w.entry, _PICKLES[1], 20, 0o000)
     elif init != 'absent':
@@ -1674,7 +1698,7 @@ def _case(draw):
             'rewrites': rewrites,
             'init': init,
             'cut': draw(st.integers(1, 999)),
-            'garbage': draw(st.integers(0, len(GARBAGE) - 1)),
+            'garbage': draw(st.integers(0, len(GARBAGE) + N_DAMAGED - 1)),
             'vfile': draw(st.sampled_from(['v0', 'v0', 'v0', 'v0', 'absent'])),
             'cross': draw(st.booleans()),
             'chunk': draw(st.sampled_from([600, 1200, 4096])),
